@@ -90,6 +90,10 @@ def runC12Case (c : CaseBlock) : IO Unit := do
       IO.println s!"mon C12 FAIL {c.id} framework-new-accepts result={vF} validate={vV} fractions-ok={fracsOK}"
     if [vV, vN, vS, vF].any (fun x => x == "panic" || x == "hang") then
       IO.println s!"mon C12 FAIL {c.id} construction-path-panicked validate={vV} new={vN} fromstr={vS} fwnew={vF}"
+    -- Framework::new on a slice this thread has passed to it before (same address and length, new content)
+    let vF2 := out1 op "fwnew2"
+    if vF2 != "-" && vF != "hang" && vF2 != vF then
+      IO.println s!"mon C12 FAIL {c.id} framework-new-depends-on-earlier-calls first={vF} same-slice-again={vF2}"
     -- "a machine obtained from any of them can always be run": the harness drives every framework the
     -- implementation built through a scripted history; the same fact is part of C01 (totality)
     let vR := out1 op "run"
